@@ -44,6 +44,10 @@ ASSUMPTIONS = [
     'the configuration is built with validate=False (so an unknown environment surfaces as FlowIREnvironmentUnknown '
     'from environmentForNode, the error named by the property, instead of a load-time validation error)',
     'environment variable names are ASCII identifiers; values are ASCII',
+    'configuration sessions (harness/c17_csession.py, Env.SessModel): the configuration object is created in memory '
+    '(concrete=FlowIRConcrete(document)) and parametrize()d with validate=False and no variable files, so parametrize() rebuilds '
+    'it from the document of creation (environments added with add_environment are dropped - modelled); add_environment '
+    'targets platform default or the active platform',
 ]
 HEADER = 'Require Import V.Env.Model.\nOpen Scope string_scope.\nOpen Scope list_scope.'
 PATH_VARS = ['PATH', 'PYTHONPATH', 'PYTHONHOME', 'LD_LIBRARY_PATH']
@@ -562,7 +566,7 @@ def run(ctx):
                 'defaultEnvironment(); every answer vs Env.SessModel on the CURRENT state and vs a fresh configuration object of the '
                 'current inputs: systematic family platform X -> Y -> X x default environment declared by each subset of '
                 '{default,p,q} x route (48), family add_environment x platform x route x target x declared-on-default (24), family '
-                'launch environment changed x platform x route x default environment declared (8), 3 fixed, 160 (thorough 3000) '
+                'launch environment changed x platform x route x default environment declared (8), 3 fixed, 120 (thorough 2000) '
                 'random sessions of 4-10 operations; non-trivial = a '
                 'non-empty declared environment is selected (named or default); distinct by full case')
     cases = list(CORPUS) + exhaustive()
